@@ -30,9 +30,28 @@ func AcquireDirLock(dir string, fs vfs.FS) (*DirLock, error) {
 		return nil, err
 	}
 	lockPath := filepath.Join(dir, "LOCK")
+	// Release removes the LOCK file, so a descriptor opened before that removal
+	// refers to an orphaned inode: locking it excludes nobody who opens the path
+	// afterwards. After flock succeeds, check that the path still names the file
+	// we locked; otherwise drop it and open the path again.
+	for attempt := 0; attempt < dirLockMaxAttempts; attempt++ {
+		lock, retry, err := tryAcquireDirLock(dir, lockPath, fs)
+		if err != nil {
+			return nil, err
+		}
+		if !retry {
+			return lock, nil
+		}
+	}
+	return nil, fmt.Errorf("dirlock: directory %q already in use", dir)
+}
+
+const dirLockMaxAttempts = 16
+
+func tryAcquireDirLock(dir, lockPath string, fs vfs.FS) (lock *DirLock, retry bool, err error) {
 	f, err := fs.OpenFileHandle(lockPath, os.O_CREATE|os.O_RDWR, 0o600)
 	if err != nil {
-		return nil, err
+		return nil, false, err
 	}
 	success := false
 	defer func() {
@@ -42,14 +61,20 @@ func AcquireDirLock(dir string, fs vfs.FS) (*DirLock, error) {
 	}()
 	fd, ok := vfs.FileFD(f)
 	if !ok {
-		return nil, fmt.Errorf("dirlock: file %q does not expose descriptor", lockPath)
+		return nil, false, fmt.Errorf("dirlock: file %q does not expose descriptor", lockPath)
 	}
 	VerifYield("dirlock.flock")
 	if err := syscall.Flock(int(fd), syscall.LOCK_EX|syscall.LOCK_NB); err != nil {
 		if errors.Is(err, syscall.EWOULDBLOCK) {
-			return nil, fmt.Errorf("dirlock: directory %q already in use", dir)
+			return nil, false, fmt.Errorf("dirlock: directory %q already in use", dir)
 		}
-		return nil, err
+		return nil, false, err
+	}
+	locked, lerr := f.Stat()
+	current, cerr := fs.Stat(lockPath)
+	if lerr != nil || cerr != nil || !os.SameFile(locked, current) {
+		// The previous holder removed the file between our open and flock.
+		return nil, true, nil
 	}
 	if err := f.Truncate(0); err == nil {
 		pid := os.Getpid()
@@ -61,7 +86,7 @@ func AcquireDirLock(dir string, fs vfs.FS) (*DirLock, error) {
 		_ = f.Sync()
 	}
 	success = true
-	return &DirLock{file: f, path: lockPath, fs: fs}, nil
+	return &DirLock{file: f, path: lockPath, fs: fs}, false, nil
 }
 
 // Release unlocks the directory and removes the lock file.
@@ -69,19 +94,22 @@ func (l *DirLock) Release() error {
 	if l == nil || l.file == nil {
 		return nil
 	}
+	// Remove the file while the lock is still held: once it is unlocked another
+	// opener may lock this very inode, and removing the path under it would let
+	// a third opener create and lock a fresh LOCK file at the same time.
 	var firstErr error
+	fs := vfs.Ensure(l.fs)
+	if err := fs.Remove(l.path); err != nil && !errors.Is(err, os.ErrNotExist) {
+		firstErr = err
+	}
 	if fd, ok := vfs.FileFD(l.file); ok {
-		if err := syscall.Flock(int(fd), syscall.LOCK_UN); err != nil {
+		if err := syscall.Flock(int(fd), syscall.LOCK_UN); err != nil && firstErr == nil {
 			firstErr = err
 		}
-	} else {
+	} else if firstErr == nil {
 		firstErr = fmt.Errorf("dirlock: file %q does not expose descriptor", l.path)
 	}
 	if err := l.file.Close(); err != nil && firstErr == nil {
-		firstErr = err
-	}
-	fs := vfs.Ensure(l.fs)
-	if err := fs.Remove(l.path); err != nil && !errors.Is(err, os.ErrNotExist) && firstErr == nil {
 		firstErr = err
 	}
 	l.file = nil
